@@ -434,3 +434,16 @@ def autopatch(h, module):
         if hit is not None and hit[0] is v:
             names[k] = _dispatch(hit[1], v)
     return names
+
+
+class _FloatMeta(type):
+    def __instancecheck__(cls, x):
+        return isinstance(x, (float, SymReal))
+
+
+class FloatLike(metaclass=_FloatMeta):
+    """stands in for the builtin `float` (or numpy.float64) inside a module under test: as a cast it keeps symbolic values
+    symbolic, as a dtype numpy maps it to object storage, isinstance accepts floats and proxies"""
+
+    def __new__(cls, x=0.0):
+        return sym_float(x)
